@@ -231,7 +231,8 @@ Judge(C, s, ev, r, prevchk) ==
         \* elsewhere observes exactly what the base run observed after this call
         \o <<<<"C08.variant", 1, ChkBool(ev.eqbase)>>>>
         \* C16
-        \o (IF post.bankrupt THEN ForNodes(C, LAMBDA n : IsSec(C, n),
+        \* (judged at the event that liquidates; afterwards C16.terminal keeps positions fixed)
+        \o (IF post.bankrupt /\ ~s.bankrupt THEN ForNodes(C, LAMBDA n : IsSec(C, n),
                  LAMBDA n : <<"C16.liquidated", n,
                     IF IsZero(ev.pos[n]) THEN "ok" ELSE IF n \in K4Nodes(C, s, r) THEN "K4" ELSE "fail">>)
             ELSE <<>>)
